@@ -49,9 +49,14 @@ def ch_values(data, labels, K):
 
 def judge(ctx, got, vals, payload):
     spec, pinned, dev = vals
-    if oracles.rel_close(got, spec, 1e-9, 1e-9):
+    # centred differences of readings on an offset `s` carry an absolute rounding error ~ eps * s, i.e. ~ 1e-16 * s
+    # relative to a unit spread: allow 1e-9 up to |s| = 1e5 and proportionally more beyond
+    sh = payload.get("shift") if isinstance(payload, dict) else None
+    big = max([abs(float(x)) for x in sh], default=0.0) if isinstance(sh, (list, tuple)) else 0.0
+    tol = 1e-9 * max(1.0, big / 1e5)
+    if oracles.rel_close(got, spec, tol, tol):
         return "spec"
-    if oracles.rel_close(got, pinned, 1e-9, 1e-9):
+    if oracles.rel_close(got, pinned, tol, tol):
         ctx.violation("impl-violation",
                       f"index {got} != definition {spec}: centred on the scalar mean of all entries (deviation {dev})",
                       payload, {"site": "ch-centre", "deviation": "scalar-mean-centre"})
@@ -90,6 +95,11 @@ def run(ctx):
             cfg["limit"] = 25
             if i % 2 == 0:
                 cfg["shift"] = [ctx.rng.choice([0, 100, -30]) for _ in range(cfg["N"])]
+            if i % 5 == 3:
+                # readings riding on a huge common offset (epoch seconds, absolute frequencies): the dispersions must be
+                # computed from centred values
+                off = float(10 ** ctx.rng.choice([6, 7, 8]))
+                cfg["shift"] = [off] * cfg["N"]
             cfgs.append(cfg)
 
     lines = []
